@@ -12,6 +12,8 @@ Definition obj_len (o : obj) : Z := match o with [] => 0 | f :: _ => zlen f end.
 (* __getitem__: the same selector on every field *)
 Definition obj_select (o : obj) (s : rowsel) : res obj := rsequence (map (sel_rows s) o).
 Definition obj_item (o : obj) (i : Z) : res (list E) := rsequence (map (fun f => np_item f i) o).
+(* __iter__ (L136-137): (self[i] for i in range(len(self))) *)
+Definition obj_iter (o : obj) : list (res (list E)) := map (fun i => obj_item o (Z.of_nat i)) (seq 0 (Z.to_nat (obj_len o))).
 (* np.concatenate: field-wise *)
 Fixpoint transpose_cols (os : list obj) (nfields : nat) : obj :=
   match nfields with O => [] | S k => concat (map (fun o => hd [] o) os) :: transpose_cols (map (@tl (list E)) os) k end.
